@@ -32,11 +32,6 @@ P_ConvNearR(rs, rd, v, out) ==
     LET qr == MulDivQR(v, rd, rs) IN out = qr[1] \/ (qr[2] # 0 /\ out = qr[1] + 1)
 P_ConvInRange(D, out)    == out >= 0 /\ out <= ChRange(D)
 
-\* first index in 1..n failing Ok, 0 if none.  TLC evaluates CHOOSE over an interval in
-\* ascending order, so this is the first failure
-FirstBad(n, Ok(_)) ==
-    IF \A i \in 1..n : Ok(i) THEN 0 ELSE CHOOSE i \in 1..n : ~Ok(i)
-
 \* tbl[i] = convert(i-1), i in 1..ChRange(S)+1 ; returns the set of violated clauses
 \* as records [clause, v] (first offending source value only, per clause)
 P_ConvTable(S, D, same, tbl) ==
@@ -130,7 +125,12 @@ I_Conv(S, D, v) == I_ConvR(I_ConvPath(S, D), ChRange(S), ChRange(D), D.w, v)
 
 \* channel_multiplier_unsigned: uint8 -> div255, uint16 -> /65535, generic -> trunc(a/max*b)
 Div255(x) == LET t == x + 128 IN (t + (t \div 256)) \div 256
-I_MulR(native8, r, a, b) ==
-    IF native8 THEN Div255(a * b) ELSE MulDivQR(a, b, r)[1]
-I_Mul(m, a, b) == I_MulR(m.native /\ m.bits = 8, ChRange(m), a, b)
+\* flavour: "div255" (uint8_t), "exact" (uint16_t: integer product / 65535), "generic" (double:
+\* max(a,b)/max * min(a,b), truncated -- may land one below an exactly integral quotient)
+I_MulFlavour(m) == IF m.native /\ m.bits = 8 THEN "div255" ELSE IF m.native /\ m.bits = 16 THEN "exact" ELSE "generic"
+I_MulSet(fl, r, a, b) ==
+    LET qr == MulDivQR(a, b, r) IN
+    CASE fl = "div255" -> {Div255(a * b)}
+      [] fl = "exact"  -> {qr[1]}
+      [] fl = "generic" -> IF qr[2] = 0 /\ qr[1] > 0 /\ a # r /\ b # r THEN {qr[1] - 1, qr[1]} ELSE {qr[1]}
 =============================================================================
